@@ -715,11 +715,57 @@ def _dev_filter(ctx, tasks):
     return keep
 
 
+def worker_timed(task):
+    import time
+    t0 = time.time()
+    r = worker(task)
+    return time.time() - t0, r
+
+
+def _run_pool(tasks, nproc):
+    """kit.parallel_map with hang detection: a worker that is still running long after every other task has finished
+    (a LAPACK SVD on garbage input can spin for ever, seen with a mutated gate under frequent directions) is killed and
+    reported as `hung` instead of blocking the whole check until the global wall-clock limit (exit 2)."""
+    import concurrent.futures as cf
+    import multiprocessing as mp
+    import time
+    envd = {k: v for k, v in kit.worker_env(8).items() if k in ("JAX_PLATFORMS", "OMP_NUM_THREADS", "TF_CPP_MIN_LOG_LEVEL", "XLA_FLAGS")}
+    ex = cf.ProcessPoolExecutor(max_workers=nproc, mp_context=mp.get_context("spawn"), initializer=kit._pool_init, initargs=(envd,))
+    futs = [ex.submit(worker_timed, t) for t in tasks]
+    results = [None] * len(tasks)
+    longest, last_done, pending = 1.0, time.time(), set(range(len(tasks)))
+    try:
+        while pending:
+            done, _ = cf.wait([futs[i] for i in pending], timeout=5, return_when=cf.FIRST_COMPLETED)
+            for f in done:
+                i = futs.index(f)
+                el, r = f.result()
+                results[i] = r
+                longest = max(longest, el)
+                pending.discard(i)
+                last_done = time.time()
+            # only stragglers left (fewer than the pool size, so each has had a process of its own since `last_done`)
+            if pending and len(pending) < nproc and time.time() - last_done > max(240.0, 12.0 * longest):
+                for i in pending:
+                    cfg = {k: v for k, v in tasks[i].items() if k not in ("histories", "pairs", "blends")}
+                    results[i] = [{"case": cfg, "hung": round(time.time() - last_done), "fails": []}]
+                for pr in list(getattr(ex, "_processes", {}).values()):
+                    try:
+                        pr.kill()
+                    except Exception:  # noqa: BLE001
+                        pass
+                break
+    finally:
+        ex.shutdown(wait=False, cancel_futures=True)
+    return results
+
+
 def execute(ctx, tasks):
     # longest first (pmap and thorough subset sweeps), so that the pool drains evenly
     order = sorted(range(len(tasks)), key=lambda i: -(len(tasks[i].get("histories", [])) * (3 if tasks[i].get("mode") == "pmapq" else 1)))
-    results = kit.parallel_map(worker, [tasks[i] for i in order], nproc=min(14, int(os.environ.get("C03_NPROC", "14"))), ndev=8)
-    obs = [o for grp in results for o in grp]
+    results = _run_pool([tasks[i] for i in order], nproc=min(14, int(os.environ.get("C03_NPROC", "14"))))
+    hung = [o for grp in results for o in grp if "hung" in o]
+    obs = [o for grp in results for o in grp if "hung" not in o]
     reqs, spans = [], []
     for o in obs:
         rq = model_requests(o)
@@ -750,6 +796,12 @@ def execute(ctx, tasks):
         compare(ctx, o, replies[a:b])
         for f in o["fails"][:5]:
             ctx.violation(f, c)
+    if hung:
+        # a hang alone is an infrastructure outcome (exit 2); next to real violations it is reported with them
+        if not ctx.violations and not ctx.stage_failures:
+            raise kit.InfraError(f"{len(hung)} worker task(s) did not finish: {hung[0]['case']}")
+        for o in hung:
+            ctx.disagree("runs.terminates", o["case"], f"worker still running {o['hung']} s after every other task had finished", "terminates")
     return obs
 
 
